@@ -15,7 +15,7 @@ FUNCTIONS = ["pox.openflow.libopenflow_01: pack/unpack/unpack_new/__len__/__eq__
              "_read/_unpack/_skip/_readzs/_readether/_readip/_packzs", "pox.lib.addresses.EthAddr/IPAddr raw paths"]
 BOUNDS = {}
 OUTSIDE = ["lists longer than the stated bounds", "payloads longer than the stated lengths", "the 64 KiB total-length boundary",
-           "symbolic characters in string fields (strings are concrete per case)", "nx_action_bundle, nx_action_learn / flow_mod_spec, nx_flow_mod and nxt_packet_in (composite Nicira structures)", "IPv6-valued NXM fields"]
+           "symbolic characters in string fields (strings are concrete per case)", "nx_action_bundle, nx_action_learn / flow_mod_spec (composite Nicira actions)", "IPv6-valued NXM fields"]
 ASSUMPTIONS = ["struct.pack/unpack modelled bit-precisely by symx.shims.StructShim (validated against the real module)",
                "ofp_match objects inside other messages are built through the public attribute setters with prerequisites met "
                "(dl_type=0x0800, nw_proto=6) or left fully wildcarded; the free-form match is covered by obligation O3"]
@@ -537,6 +537,12 @@ def h_nxm(ctx, idx, masked):
   ctx.witness('roundtrip')
 
 
+def _num(bs):
+  r = 0
+  for x in bs: r = (r << 8) | x
+  return r
+
+
 def h_nx_msg(ctx, name):
   from props import env
   env.get_core()
@@ -549,9 +555,40 @@ def h_nx_msg(ctx, name):
     o = nx.nx_async_config()
     for a in ('packet_in_mask', 'port_status_mask', 'flow_removed_mask', 'packet_in_mask_slave', 'port_status_mask_slave', 'flow_removed_mask_slave'):
       setattr(o, a, ctx.int(a, 0, 0xffffffff))
+  elif name.startswith('nx_flow_mod:'):
+    # NXT_FLOW_MOD: fixed part symbolic, nx_match of 0..2 entries (padded to 8 bytes), 0..1 actions
+    nm = int(name.split(':')[1]); na = int(name.split(':')[2])
+    o = nx.nx_flow_mod()
+    o.cookie = ctx.int('cookie', 0, (1 << 64) - 1); o.command = ctx.int('command', 0, 255); o.table_id = ctx.int('table_id', 0, 255)
+    o.idle_timeout = ctx.int('idle', 0, 0xffff); o.hard_timeout = ctx.int('hard', 0, 0xffff); o.priority = ctx.int('prio', 0, 0xffff)
+    o.buffer_id = ctx.int('buffer_id', 0, 0xfffffffe); o.out_port = ctx.int('out_port', 0, 0xffff); o.flags = ctx.int('flags', 0, 0xffff)
+    if nm >= 1: o.match.append(nx.NXM_OF_IN_PORT(ctx.int('m_in_port', 0, 0xffff)))
+    if nm >= 2: o.match.append(nx.NXM_OF_ETH_TYPE(ctx.int('m_eth_type', 0, 0xffff)))
+    if na: o.actions.append(of.ofp_action_output(port=ctx.int('a_port', 0, 0xffef), max_len=0))
+  elif name.startswith('nxt_packet_in:'):
+    nm = int(name.split(':')[1]); nd = int(name.split(':')[2])
+    o = nx.nxt_packet_in()
+    o.buffer_id = ctx.int('buffer_id', 0, 0xfffffffe); o.reason = ctx.int('reason', 0, 255); o.table_id = ctx.int('table_id', 0, 255)
+    o.cookie = ctx.int('cookie', 0, (1 << 64) - 1)
+    o.data = ctx.bytes('data', nd); o.total_len = nd + ctx.int('more', 0, 1000)
+    if nm >= 1: o.match.append(nx.NXM_OF_IN_PORT(ctx.int('m_in_port', 0, 0xffff)))
+    if nm >= 2: o.match.append(nx.NXM_NX_TUN_ID(ctx.int('m_tun', 0, (1 << 64) - 1)))
   o.xid = xid
   b = o.pack()
   ctx.check('len(pack) == len(obj)', len(b) == len(o))
+  if name.startswith('nx_flow_mod:'):
+    mlen = sum(len(e.pack()) for e in o.match)
+    ctx.check('NXT_FLOW_MOD layout: subtype, cookie, command|table, timeouts, priority, buffer, out_port, flags, match_len', ctx.And(
+      _num(b[12:16]) == 13, _num(b[16:24]) == o.cookie, _num(b[24:26]) == (o.table_id << 8 | o.command), _num(b[26:28]) == o.idle_timeout,
+      _num(b[28:30]) == o.hard_timeout, _num(b[30:32]) == o.priority, _num(b[32:36]) == o.buffer_id, _num(b[36:38]) == o.out_port,
+      _num(b[38:40]) == o.flags, _num(b[40:42]) == mlen, _num(b[42:48]) == 0))
+    ctx.check('length = 48 + match padded to 8 + actions', len(b) == 48 + (mlen + 7) // 8 * 8 + sum(len(a) for a in o.actions))
+  if name.startswith('nxt_packet_in:'):
+    mlen = sum(len(e.pack()) for e in o.match)
+    ctx.check('NXT_PACKET_IN layout: subtype, buffer, total_len, reason, table, cookie, match_len', ctx.And(
+      _num(b[12:16]) == 17, _num(b[16:20]) == o.buffer_id, _num(b[20:22]) == o.total_len, b[22] == o.reason, b[23] == o.table_id,
+      _num(b[24:32]) == o.cookie, _num(b[32:34]) == mlen, _num(b[34:40]) == 0))
+    ctx.check('length = 40 + match padded to 8 + 2 + data', len(b) == 40 + (mlen + 7) // 8 * 8 + 2 + len(o.data))
   ctx.check('header: version, type VENDOR, length, xid, vendor id', ctx.And(b[0] == 1, b[1] == 4, ((b[2] << 8) | b[3]) == len(b),
             ((b[4] << 24) | (b[5] << 16) | (b[6] << 8) | b[7]) == xid, ((b[8] << 24) | (b[9] << 16) | (b[10] << 8) | b[11]) == 0x2320))
   off, o2 = type(o).unpack_new(b)
@@ -607,7 +644,8 @@ def obligations(tier):
                desc='Nicira vendor actions: header/length/subtype, decode == original, re-encode identical, also via the action-list decoder'),
     Obligation('O4_nxm', h_nxm, [dict(idx=i, masked=mk) for i, f in enumerate(NXM_FIELDS) for mk in ((False, True) if f[2] and (thorough or i % 3 == 1) else (False,))],
                witnesses=('roundtrip',), desc='NXM entries with and without mask: header type/has-mask/length, value and mask bytes, decode, nx_match round trip'),
-    Obligation('O4_nx_messages', h_nx_msg, [dict(name=k) for k in ('nx_flow_mod_table_id', 'nx_packet_in_format', 'nx_role_request', 'nx_async_config')],
+    Obligation('O4_nx_messages', h_nx_msg, [dict(name=k) for k in ('nx_flow_mod_table_id', 'nx_packet_in_format', 'nx_role_request', 'nx_async_config', 'nx_flow_mod:0:0', 'nx_flow_mod:1:1',
+                                                            'nx_flow_mod:2:0', 'nx_flow_mod:2:1', 'nxt_packet_in:0:0', 'nxt_packet_in:1:3', 'nxt_packet_in:2:1')],
                witnesses=('roundtrip',), desc='Nicira vendor messages: header, vendor id, decode == original, re-encode identical'),
     Obligation('O3_match', h_match, [dict(flow_mod=False, tied=not thorough), dict(flow_mod=True, tied=not thorough)], witnesses=('match',), split=16,
                desc='ofp_match: all fields x all wildcard words vs spec layout with prerequisite zeroing; normal-form round trip'),
